@@ -322,12 +322,14 @@ func chooseServer(x *explore.X, o offer) serverChoice {
 			return sc
 		}
 	} else if sc.Vers <= tls.VersionTLS12 {
-		// default suite list: keep certificate kinds for which the hello has an ECDHE suite
+		// default suite list: keep certificate kinds for which the hello has a suite that a server
+		// with Config.CipherSuites == nil enables (no RSA key exchange, no 3DES, no RC4)
 		var cs []string
+		enabled := tls.VerifDefaultCipherSuites()
 		for _, k := range certs {
 			okk := false
 			for _, s := range o.suites {
-				if !suiteValidAt(s, sc.Vers) {
+				if !suiteValidAt(s, sc.Vers) || !has16(enabled, s) {
 					continue
 				}
 				a := suite12Auth[s]
